@@ -4,6 +4,7 @@
    and prints "OK <id>" or "MISMATCH <id> model=<state>". *)
 open Vx
 open C19Model
+open C19RecModel
 
 let str_of_hex (s : string) = bytes_of_hex s            (* "-" = empty string *)
 let hex_of_str (l : BinNums.coq_N list) = hex_of_bytes l
@@ -94,6 +95,59 @@ let state_string (ocs : outcome list) (s : st) : string =
   Printf.sprintf "oc=%s|ch=%s|next=%s|trex=%s|%s" oc ch (si s.next_id)
     (csv_of_ints (L.map int_of_n s.trexs)) (S.concat "" (L.map trak_string s.traks))
 
+(* ---- decoder configuration records (C19RecModel) *)
+let b01 b = if b then "1" else "0"
+
+let avcrec_string (r : avcrec) : string =
+  Printf.sprintf "%s.%s.%s.%s/%s/%s.%s.%s.%s.%s" (si r.ar_profile) (si r.ar_compat) (si r.ar_level)
+    (of_strs r.ar_sps) (of_strs r.ar_pps) (si r.ar_chroma) (si r.ar_bdl) (si r.ar_bdc) (si r.ar_nspsext) (b01 r.ar_notrail)
+
+let parse_avcrec (s : string) : avcrec =
+  match split_on '/' s with
+  | [a; pps; t] ->
+    (match split_on '.' a, split_on '.' t with
+     | [p; c; l; sps], [cf; bl; bc; ne; nt] ->
+       { ar_profile = ni p; ar_compat = ni c; ar_level = ni l; ar_sps = strs_of sps; ar_pps = strs_of pps;
+         ar_chroma = ni cf; ar_bdl = ni bl; ar_bdc = ni bc; ar_nspsext = ni ne; ar_notrail = (nt = "1") }
+     | _ -> failwith ("bad avc record " ^ s))
+  | _ -> failwith ("bad avc record " ^ s)
+
+let avc_decode_obs (data : BinNums.coq_N list) : string =
+  match avcrec_decode data with Base.Ok r -> avcrec_string r | _ -> "ERR"
+
+let arrays_string (l : (BinNums.coq_N * BinNums.coq_N list list) list) : string =
+  match l with [] -> "_" | _ -> S.concat "&" (L.map (fun (ct, nalus) -> si ct ^ "=" ^ of_strs nalus) l)
+
+(* visible: true = as the Go accessors show an array header (Complete()<<7 | NaluType(): bit 6 dropped) *)
+let hvcrec_string (visible : bool) (r : hvcrec) : string =
+  let arrs = if visible then L.map (fun (ct, n) -> let c = int_of_n ct in (n_of_int ((c land 0x80) lor (c land 0x3f)), n)) r.hr_arrays
+    else r.hr_arrays in
+  Printf.sprintf "%s/%s"
+    (S.concat "." [si r.hr_version; si r.hr_space; b01 r.hr_tier; si r.hr_pidc; si r.hr_compat; si r.hr_constraint; si r.hr_level;
+                   si r.hr_minspat; si r.hr_par; si r.hr_chroma; si r.hr_bdl; si r.hr_bdc; si r.hr_avgfr; si r.hr_cfr; si r.hr_ntl;
+                   si r.hr_tin; si r.hr_lsm1])
+    (arrays_string arrs)
+
+let parse_hvcrec (s : string) : hvcrec =
+  match split_on '/' s with
+  | [f; arrs] ->
+    let arrays = if arrs = "_" then [] else
+        L.map (fun a -> match split_on '=' a with [ct; n] -> (ni ct, strs_of n) | _ -> failwith ("bad array " ^ a)) (split_on '&' arrs) in
+    (match split_on '.' f with
+     | [v; sp; t; pi; co; cs; lv; ms; pa; ch; bl; bc; av; cf; nt; ti; ls] ->
+       { hr_version = ni v; hr_space = ni sp; hr_tier = (t = "1"); hr_pidc = ni pi; hr_compat = ni co; hr_constraint = ni cs;
+         hr_level = ni lv; hr_minspat = ni ms; hr_par = ni pa; hr_chroma = ni ch; hr_bdl = ni bl; hr_bdc = ni bc; hr_avgfr = ni av;
+         hr_cfr = ni cf; hr_ntl = ni nt; hr_tin = ni ti; hr_lsm1 = ni ls; hr_arrays = arrays }
+     | _ -> failwith ("bad hevc record " ^ s))
+  | _ -> failwith ("bad hevc record " ^ s)
+
+let hevc_decode_obs (data : BinNums.coq_N list) : string =
+  match hvcrec_decode data with
+  | Base.Ok r -> hvcrec_string true r ^ "|" ^ hex_of_str (hvcrec_encode r)
+  | _ -> "ERR"
+
+let verdict id m obs = if m = obs then Printf.printf "OK %s\n" id else Printf.printf "MISMATCH %s model=%s\n" id m
+
 let () =
   iter_lines (fun line ->
       match split_on '\t' line with
@@ -133,4 +187,14 @@ let () =
           | _ -> "ERR" in
         if m = obs then Printf.printf "OK %s\n" id
         else Printf.printf "MISMATCH %s model=%s\n" id m
+      | ["RA"; id; r; obs] ->
+        let r = parse_avcrec r in
+        let enc = avcrec_encode r in
+        verdict id (Printf.sprintf "%s|%s|%s" (si (avcrec_size r)) (hex_of_str enc) (avc_decode_obs enc)) obs
+      | ["DA"; id; data; obs] -> verdict id (avc_decode_obs (str_of_hex data)) obs
+      | ["RH"; id; r; obs] ->
+        let r = parse_hvcrec r in
+        let enc = hvcrec_encode r in
+        verdict id (Printf.sprintf "%s|%s|%s" (si (hvcrec_size r)) (hex_of_str enc) (hevc_decode_obs enc)) obs
+      | ["DH"; id; data; obs] -> verdict id (hevc_decode_obs (str_of_hex data)) obs
       | _ -> Printf.printf "BADLINE %s\n" line)
